@@ -20,7 +20,7 @@ RULE = ("a case marks a random subset of fields (text, host, integer, boolean, b
         "sensitive position equals the unmasked rendering (non-sensitive AES secrets are compared by decrypting), "
         "mask None changes nothing, documents decode to the masked tree; non-trivial = >= 2 sensitive non-empty "
         "positions at >= 2 depths and >= 1 non-sensitive position; distinct = distinct case content")
-REQUIRED = ("virtual_documents_scanned", "virtual_renderings_checked", "lists_reassigned_from_own_items", "sensitive_lists_checked", "unmasked_reference_checks", "trees_scanned", "documents_scanned", "sensitive_positions_checked", "nonsensitive_positions_checked",
+REQUIRED = ("renders_after_failed_masked_render", "renders_after_schema_growth", "virtual_documents_scanned", "virtual_renderings_checked", "lists_reassigned_from_own_items", "sensitive_lists_checked", "unmasked_reference_checks", "trees_scanned", "documents_scanned", "sensitive_positions_checked", "nonsensitive_positions_checked",
             "mask:none", "mask:empty", "mask:one-char", "mask:multi-char", "sensitive_in_list_items", "sensitive_in_ctype",
             "sensitive_at_depth>=2")
 ASSUMPTIONS = ["the length rule (mask character repeated to the value's length) is asserted for text values only",
@@ -138,6 +138,15 @@ def run(case, ctx, res):
     sitem.n = cc.IntField()
     root.sitems = cc.ListField(sitem, sensitive=True)
     root.sub.sitems = cc.ListField(sitem, sensitive=True)
+    # a computed field that can be made to fail: a rendering that raises half-way must leave nothing behind
+    boom = {"on": False}
+
+    def zgetter(c):
+        if boom["on"]:
+            raise ZeroDivisionError("computed field failed")
+        return "fine"
+
+    root.zboom = cc.VirtualField(zgetter)
     keypath = os.path.join(ctx.dir, "mask.key")
     cfg = cc.Config(root, key_filename=keypath)
 
@@ -255,6 +264,25 @@ def run(case, ctx, res):
         if "vsecret" in tree or "vplain" in tree:
             res.viol("M-mask", "virtual-without-asking", "virtual fields appear in to_tree() without virtual=True")
             return
+        if mask is not None:
+            # a masked rendering that fails half-way, then one without a mask: nothing of the mask may linger
+            boom["on"] = True
+            try:
+                cfg.to_tree(virtual=True, sensitive_mask=mask)
+                failed = False
+            except Exception:
+                failed = True
+            finally:
+                boom["on"] = False
+            if failed:
+                res.count("renders_after_failed_masked_render")
+                try:
+                    after_fail = cfg.to_tree()
+                except Exception as exc:
+                    res.viol("M-mask", "to_tree-raises:after-failed-render", "to_tree() raised %r after a failed masked rendering" % (exc,))
+                    return
+                if not _check_tree(res, after_fail, plain_tree, positions, None, "none", key, "tree after a failed masked rendering"):
+                    return
         for fmt in case["fmts"]:
             if not trees.in_domain(fmt, tree):
                 continue
@@ -292,6 +320,50 @@ def run(case, ctx, res):
                         return
                 if not _check_tree(res, vback, plain_tree, positions, mask, mname, key, fmt + "(virtual=True)"):
                     return
+    # ---- the schema grows after it has been rendered with a mask: sensitive fields added by item / path syntax to the
+    # root, a nested section and the item schema of a list are masked like all others, in old and new configurations
+    ltok = "tk%016x" % (hash(vtok) & 0xFFFFFFFFFFFFFFFF)
+    try:
+        root["late_secret"] = cc.StringField(sensitive=True)
+        root["sub.deep.late_secret"] = cc.StringField(sensitive=True)
+        root["sub.late_plain"] = cc.StringField()
+        item["late_secret"] = cc.StringField(sensitive=True)
+        newer = cc.Config(root, key_filename=keypath)
+        for c in (cfg, newer):
+            c.late_secret = ltok + "-root"
+            c["sub.deep.late_secret"] = ltok + "-deep"
+            c.sub.late_plain = "late-plain"
+            if c is newer:
+                c.items = [{}]
+            if len(c.items):
+                c.items[0].late_secret = ltok + "-item"
+    except Exception as exc:
+        res.viol("M-mask", "late-fields-raise", "adding sensitive fields to the schema after a rendering raised %r" % (exc,))
+        return
+    for mask in ("*", "<late-mask>"):
+        for which, c in (("existing", cfg), ("new", newer)):
+            try:
+                t = c.to_tree(sensitive_mask=mask)
+            except Exception as exc:
+                res.viol("M-mask", "to_tree-raises:late-fields", "to_tree(sensitive_mask=%r) raised %r after the schema grew" % (mask, exc))
+                return
+            res.count("renders_after_schema_growth")
+            checks = [(["late_secret"], ltok + "-root"), (["sub", "deep", "late_secret"], ltok + "-deep")]
+            if len(c.items):
+                checks.append((["items", 0, "late_secret"], ltok + "-item"))
+            if find_token_deep(t, ltok):
+                res.viol("M-leak", "unmasked:field-added-after-first-render", "%s configuration, mask %r: a sensitive field added to the "
+                         "schema after the first masked rendering is shown in clear: %r" % (which, mask, _short(t)))
+                return
+            for pth, text in checks:
+                got = _dig(t, pth) if _has(t, pth) else "<missing>"
+                want = mask * len(text) if len(mask) == 1 else mask
+                if got != want:
+                    res.viol("M-mask", "late-field-not-masked", "%s configuration, mask %r: %s is rendered as %r" % (which, mask, _p(pth), _short(got)))
+                    return
+            if _dig(t, ["sub", "late_plain"]) != "late-plain":
+                res.viol("M-mask", "nonsensitive-altered:late", "non-sensitive late field rendered as %r" % (_dig(t, ["sub", "late_plain"]),))
+                return
     sens_pos = [(p, v) for p, k, s, v in positions if s and _nonempty(v) and k != "b"]
     if len(sens_pos) >= 2 and len({len(p) for p, _v in sens_pos}) >= 2 and any(not s for _p2, _k, s, _v in positions):
         res.nontrivial(case["layout"], case["masks"], case["fmts"])
